@@ -591,10 +591,11 @@ class ExcelInPython:
         return text[len(text) - num_chars:]
 
     def _or(self, flatten_list: List):
-        return any(flatten_list)
+        # blank cells have no truth value: they are passed over, as Excel does
+        return any(item for item in flatten_list if not isinstance(item, self.EmptyCell))
 
     def _and(self, flatten_list: List):
-        return all(flatten_list)
+        return all(item for item in flatten_list if not isinstance(item, self.EmptyCell))
 
     def _min(self, flatten_list: List):
         err_value = self._find_error_in_list(flatten_list)
